@@ -17,6 +17,7 @@ REPLAY_BIN = os.path.join(VERIF, ".build", "replay", "debug", "h3-verif-replay")
 SPECS = {
     # property -> list of (spec name, module, tiers)
     "C05": [("c05_interleavings", "c05")],
+    "C08": [("c08_goaway_rules", "c08")],
 }
 
 
